@@ -15,6 +15,7 @@ response write after it, or a label taken from `req.URL.Path` makes `decide` fai
 -/
 import Rivaas.Tie.Skel
 import Rivaas.Gen.Serve
+import Rivaas.Props.C08
 
 namespace Rivaas.Tie.C08
 open Rivaas.Skel Rivaas.Gen.Serve
@@ -188,5 +189,45 @@ theorem starts_eq_ends (ρ : Atom → Bool) (live : Bool) :
     endCalls true (exec ρ serveHTTP).trace = 1 := by
   obtain ⟨h1, h2⟩ := end_exactly_once ρ
   cases live <;> simp [endCalls, liveStarts, h1, h2]
+
+/-! ### the hand-written model and the regenerated skeleton have the same exits -/
+
+open Rivaas.Serve in
+/-- router-level response operation an event stands for; `none`: start/wrap/end (covered by the shape);
+    `some none`: an operation the model does not know -/
+def ropOf : Ev → Option (Option ROp)
+  | .run _ w =>
+    some (if w = whatNext then some .next else if w = whatNotFound then some .notFound
+      else if w = whatMethodNotAllowed then some .methodNotAllowed else if w = whatCallHandler then some .noRoute else none)
+  | .wuse w =>
+    some (if w = whatSetLifecycleHeaders then some .lifecycle else if w = whatWriteHeader then some .writeHeader
+      else if w = whatWrite then some .writeBody else none)
+  | _ => none
+
+def dedup : List (List (Option Rivaas.Serve.ROp)) → List (List (Option Rivaas.Serve.ROp))
+  | [] => []
+  | x :: r => if (dedup r).contains x then dedup r else x :: dedup r
+
+/-- the distinct sequences of router-level response operations over all paths of the current skeleton -/
+def skeletonExits : List (List (Option Rivaas.Serve.ROp)) :=
+  dedup ((traces (slice keepObs serveHTTP)).map (·.filterMap ropOf))
+
+set_option maxRecDepth 100000 in
+/-- every exit of the regenerated skeleton is an exit of the model (`Model/Serve.lean` misses no serve path of the
+    code: a new helper, a new early answer or a new writer call in ServeHTTP breaks this), and every exit of the model
+    occurs in the skeleton (the model invents none) -/
+theorem exits_agree :
+    skeletonExits.all (fun s => (Rivaas.C08.modelExits.map (·.map some)).contains s) = true ∧
+    Rivaas.C08.modelExits.all (fun m => skeletonExits.contains (m.map some)) = true := by decide +kernel
+
+/-- for all lookup answers and handler programs, the operations the model's dispatch performs are the operations of
+    some path of the code's skeleton -/
+theorem model_exits_are_skeleton_exits (f : Rivaas.Serve.Facts) (p : Rivaas.Serve.Prog) :
+    (Rivaas.Serve.dispatch false f p).ops.map some ∈ skeletonExits := by
+  have h := Rivaas.C08.lemma_dispatch_ops false f p
+  have h2 := exits_agree.2
+  rw [List.all_eq_true] at h2
+  have := h2 _ h
+  simpa using this
 
 end Rivaas.Tie.C08
